@@ -360,6 +360,32 @@ let switch_main () =
      | _ -> print_endline "?")
   done with End_of_file -> ())
 
+(* bf: stdin lines "bf <u> <v> <off> <w> <size> <sgn>" -> "<unit after store> <value read back>" ; "ea <base> <idx> <size>" -> address (C04) *)
+let bf_main () =
+  let z_of_string s =
+    let neg = String.length s > 0 && s.[0] = '-' in
+    let body = if neg then String.sub s 1 (String.length s - 1) else s in
+    (match n_of_string body with N0 -> Z0 | Npos p -> if neg then Zneg p else Zpos p) in
+  let rec pos_str p = (* decimal string of a positive via repeated division on OCaml strings is overkill: use float-free bignum by lists *)
+    let rec to_bits p = match p with XH -> [1] | XO q -> 0 :: to_bits q | XI q -> 1 :: to_bits q in
+    let bits = List.rev (to_bits p) in
+    (* decimal digits little-endian *)
+    let dbl_add ds b = let rec go ds c = match ds with [] -> if c = 0 then [] else [c] | d :: r -> let x = 2 * d + c in (x mod 10) :: go r (x / 10) in go ds b in
+    let ds = List.fold_left (fun ds b -> dbl_add ds b) [] bits in
+    String.concat "" (List.rev_map string_of_int (if ds = [] then [0] else ds)) in
+  let z_str z = match z with Z0 -> "0" | Zpos p -> pos_str p | Zneg p -> "-" ^ pos_str p in
+  (try while true do
+    let line = input_line stdin in
+    (match List.filter (fun x -> x <> "") (String.split_on_char ' ' (String.trim line)) with
+     | ["bf"; u; v; off; w; size; sgn] ->
+       let u = z_of_string u and v = z_of_string v and off = z_of_string off and w = z_of_string w and size = z_of_string size in
+       let u' = unit_write size (bf_store u v off w) in
+       let r = if sgn = "1" then bf_load_s u' off w else bf_load_u u' off w in
+       print_endline (z_str u' ^ " " ^ z_str r)
+     | ["ea"; b; i; sz] -> print_endline (z_str (elem_addr (z_of_string b) (z_of_string i) (z_of_string sz)))
+     | _ -> print_endline "?")
+  done with End_of_file -> ())
+
 (* cond: stdin lines of items I1 I0 E1 E0 L N T<k>; prints the selected payloads or ERR (C10) *)
 let cond_main () =
   (try while true do
@@ -451,6 +477,7 @@ let () =
   | [_; "lines"; f] -> lines_main f
   | [_; "macro"; f] -> macro_main f
   | [_; "cond"] -> cond_main ()
+  | [_; "bf"] -> bf_main ()
   | [_; "switch"] -> switch_main ()
   | [_; "sdisc"] -> sdisc_main ()
   | [_; "inc"] -> inc_main ()
